@@ -530,6 +530,32 @@ namespace bloch::runtime {
         return v;
     }
 
+    // Value::className is the static class of an object value: overloads and the class a member
+    // call starts its lookup in are chosen from it, as the analyser chose them from the static
+    // types. Binding a reference (null included) to a slot of a declared class type therefore
+    // restamps it with that class. A declared type that names no class here (an unresolved type
+    // parameter) leaves the stamp alone.
+    void RuntimeEvaluator::stampStaticClass(Value& v, const RuntimeTypeInfo& declared) const {
+        if (v.type != Value::Type::Object || declared.kind != Value::Type::Object)
+            return;
+        if (declared.className.empty() || !findClass(declared.className))
+            return;
+        v.className = declared.className;
+    }
+
+    void RuntimeEvaluator::stampStaticClass(Value& v, Type* declared,
+                                            const RuntimeClass* genericCtx) const {
+        if (v.type != Value::Type::Object || !dynamic_cast<NamedType*>(declared))
+            return;
+        std::unordered_map<std::string, RuntimeTypeInfo> subst;
+        if (genericCtx) {
+            for (size_t i = 0;
+                 i < genericCtx->typeParamNames.size() && i < genericCtx->typeArgs.size(); ++i)
+                subst[genericCtx->typeParamNames[i]] = genericCtx->typeArgs[i];
+        }
+        stampStaticClass(v, typeInfoFromAst(declared, subst));
+    }
+
     void RuntimeEvaluator::execute(Program& program) {
         if (m_executed) {
             throw BlochError(ErrorCategory::Runtime, 0, 0,
@@ -659,8 +685,7 @@ namespace bloch::runtime {
             if (fit != it->end()) {
                 Value newVal = v;
                 if (fit->second.value.type == Value::Type::Object &&
-                    newVal.type == Value::Type::Object && newVal.objectValue &&
-                    !fit->second.value.className.empty()) {
+                    newVal.type == Value::Type::Object && !fit->second.value.className.empty()) {
                     newVal.className = fit->second.value.className;
                 }
                 fit->second.value = newVal;
@@ -676,8 +701,7 @@ namespace bloch::runtime {
                     Value newVal = v;
                     const Value& existing = thisObj->fields[field->offset];
                     if (existing.type == Value::Type::Object &&
-                        newVal.type == Value::Type::Object && newVal.objectValue &&
-                        !existing.className.empty()) {
+                        newVal.type == Value::Type::Object && !existing.className.empty()) {
                         newVal.className = existing.className;
                     }
                     storeInSlot(thisObj->fields[field->offset], newVal);
@@ -689,7 +713,7 @@ namespace bloch::runtime {
                 Value newVal = v;
                 const Value& existing = owner->staticStorage[field->offset];
                 if (existing.type == Value::Type::Object && newVal.type == Value::Type::Object &&
-                    newVal.objectValue && !existing.className.empty()) {
+                    !existing.className.empty()) {
                     newVal.className = existing.className;
                 }
                 storeInSlot(owner->staticStorage[field->offset], newVal);
@@ -828,7 +852,9 @@ namespace bloch::runtime {
             case Value::Type::Qubit:
                 return actual.type == Value::Type::Qubit ? std::optional<int>(0) : std::nullopt;
             case Value::Type::Object: {
-                if (isNullReference(actual))
+                // Only the null literal fits every class; a null held in a typed slot carries
+                // that slot's class and is costed by it like any other value of that type.
+                if (isNullReference(actual) && actual.className.empty())
                     return 3;
                 if (actual.type != Value::Type::Object)
                     return std::nullopt;
@@ -1265,6 +1291,7 @@ namespace bloch::runtime {
             slot = defaultValueForField(field, cls->name);
             if (field.hasInitializer && field.initializer) {
                 slot = eval(field.initializer);
+                stampStaticClass(slot, field.type);
             }
             m_inStaticContext = prevStatic;
             m_currentClassCtx = prevClass;
@@ -1506,6 +1533,7 @@ namespace bloch::runtime {
                 thisVal.className = cls->name;
                 m_env.back()["this"] = {thisVal, false, true};
                 Value init = eval(field.initializer);
+                stampStaticClass(init, field.type);
                 slot = init;
                 endScope();
                 m_currentClassCtx = prevClass;
@@ -1545,7 +1573,9 @@ namespace bloch::runtime {
         thisVal.className = cls->name;
         m_env.back()["this"] = {thisVal, false, true};
         for (size_t i = 0; ctor && i < ctor->params.size() && i < args.size(); ++i) {
-            m_env.back()[ctor->params[i]->name] = {args[i], false, true};
+            Value arg = args[i];
+            stampStaticClass(arg, ctor->params[i]->type.get(), cls);
+            m_env.back()[ctor->params[i]->name] = {std::move(arg), false, true};
         }
 
         // Detect an explicit super(...) call as the first statement.
@@ -1633,6 +1663,7 @@ namespace bloch::runtime {
                 auto fieldMeta = findInstanceField(cls, param->name);
                 if (fieldMeta && fieldMeta->offset < obj->fields.size()) {
                     obj->fields[fieldMeta->offset] = args[i];
+                    stampStaticClass(obj->fields[fieldMeta->offset], fieldMeta->type);
                 }
             }
         }
@@ -1687,7 +1718,10 @@ namespace bloch::runtime {
         }
         m_returnValue = {};
         for (size_t i = 0; i < method->decl->params.size() && i < args.size(); ++i) {
-            m_env.back()[method->decl->params[i]->name] = {args[i], false, true};
+            Value arg = args[i];
+            if (i < method->params.size())
+                stampStaticClass(arg, method->params[i]);
+            m_env.back()[method->decl->params[i]->name] = {std::move(arg), false, true};
         }
         bool prevReturn = m_hasReturn;
         m_hasReturn = false;
@@ -1699,6 +1733,7 @@ namespace bloch::runtime {
             }
         }
         Value ret = m_returnValue;
+        stampStaticClass(ret, method->decl->returnType.get(), method->owner);
         endScope();
         m_hasReturn = prevReturn;
         m_currentClassCtx = prevClass;
@@ -1713,7 +1748,9 @@ namespace bloch::runtime {
         beginScope();
         FrameGuard frame(m_frameBase, m_env.size() - 1);
         for (size_t i = 0; i < fn->params.size() && i < args.size(); ++i) {
-            m_env.back()[fn->params[i]->name] = {args[i], false, true};
+            Value arg = args[i];
+            stampStaticClass(arg, fn->params[i]->type.get(), nullptr);
+            m_env.back()[fn->params[i]->name] = {std::move(arg), false, true};
         }
         bool prevReturn = m_hasReturn;
         m_returnValue = {};
@@ -1726,6 +1763,7 @@ namespace bloch::runtime {
             }
         }
         Value ret = m_returnValue;
+        stampStaticClass(ret, fn->returnType.get(), nullptr);
         endScope();
         m_hasReturn = prevReturn;
         return ret;
@@ -1968,6 +2006,7 @@ namespace bloch::runtime {
                     initialized = true;
                 }
             }
+            stampStaticClass(v, var->varType.get(), m_currentClassCtx);
             m_env.back()[var->name] = {v, var->isTracked, initialized};
         } else if (auto block = dynamic_cast<BlockStatement*>(s)) {
             beginScope();
@@ -3132,20 +3171,29 @@ namespace bloch::runtime {
                         ? findInstanceField(obj.objectValue->cls, memAssign->member)
                         : nullptr;
                 if (instField) {
-                    if (instField->offset < obj.objectValue->fields.size())
-                        storeInSlot(obj.objectValue->fields[instField->offset], rhs);
+                    if (instField->offset < obj.objectValue->fields.size()) {
+                        Value stored = rhs;
+                        stampStaticClass(stored, instField->type);
+                        storeInSlot(obj.objectValue->fields[instField->offset], stored);
+                    }
                 } else {
                     auto [staticField, owner] =
                         obj.objectValue->cls
                             ? findStaticFieldWithOwner(obj.objectValue->cls, memAssign->member)
                             : std::pair<RuntimeField*, RuntimeClass*>{nullptr, nullptr};
-                    if (staticField && owner && staticField->offset < owner->staticStorage.size())
-                        storeInSlot(owner->staticStorage[staticField->offset], rhs);
+                    if (staticField && owner && staticField->offset < owner->staticStorage.size()) {
+                        Value stored = rhs;
+                        stampStaticClass(stored, staticField->type);
+                        storeInSlot(owner->staticStorage[staticField->offset], stored);
+                    }
                 }
             } else if (obj.type == Value::Type::ClassRef && obj.classRef) {
                 auto [field, owner] = findStaticFieldWithOwner(obj.classRef, memAssign->member);
-                if (field && owner && field->offset < owner->staticStorage.size())
-                    storeInSlot(owner->staticStorage[field->offset], rhs);
+                if (field && owner && field->offset < owner->staticStorage.size()) {
+                    Value stored = rhs;
+                    stampStaticClass(stored, field->type);
+                    storeInSlot(owner->staticStorage[field->offset], stored);
+                }
             }
             return rhs;
         } else if (auto aassign = dynamic_cast<ArrayAssignmentExpression*>(e)) {
